@@ -193,8 +193,20 @@ def child_alone(tool, path_in, path_out, channels, dir_in, dir_out):
     return norm_results({path_in: r}, dir_in), snapshot(dir_out) if os.path.isdir(dir_out) else {}
 
 
-def child_schedule(tool, dir_in, dir_out, channels, assignment, jobs):
+def child_schedule(tool, dir_in, dir_out, channels, assignment, jobs, spell=0):
+    """spell: how the caller writes the two directories - 0 as plain strings; 1 the input directory through a symbolic link and up
+    again (other/lnk/../in, which the operating system resolves from the link's target); 2 the output directory as a pathlib.Path."""
     from TotalDepth.LAS.core import WriteLAS
+    if spell == 1:
+        work = os.path.dirname(dir_in)
+        os.makedirs(os.path.join(work, 'store'), exist_ok=True)
+        os.makedirs(os.path.join(work, 'other'), exist_ok=True)
+        if not os.path.islink(os.path.join(work, 'other', 'lnk')):
+            os.symlink(os.path.join(work, 'store'), os.path.join(work, 'other', 'lnk'))
+        dir_in = os.path.join(work, 'other', 'lnk', '..', os.path.basename(dir_in))
+    elif spell == 2:
+        import pathlib
+        dir_out = pathlib.Path(dir_out)
 
     class FakeMP:
         Pool = env.VirtualPool
@@ -308,7 +320,7 @@ def explore_directory(case, res, workdir, tier):
         # more workers asked for than there are files (the statement's worker counts go to 16): every task on its own worker
         schedules.append((list(range(len(tasks))), 16))
     for assignment, jobs in schedules:
-        r, o, log = env.run_forked(child_schedule, tool, dir_in, os.path.join(workdir, 'mp%d' % nsched), channels, assignment, jobs)
+        r, o, log = env.run_forked(child_schedule, tool, dir_in, os.path.join(workdir, 'mp%d' % nsched), channels, assignment, jobs, nsched % 3)
         shutil.rmtree(os.path.join(workdir, 'mp%d' % nsched), ignore_errors=True)
         res.transitions += len(tasks)
         res.states += len(tasks) + 1
